@@ -15,10 +15,14 @@ def C(text, design, note=COMMON_NOTE, technique=TECH):
 
 
 CLAIMED = {
-    "C01": C("Theorems (Props/C01.v): detection, union construction, field-set merge, simplification and generate() admit every sample "
-             "they were inferred from (generate_sound, unbounded), and the model-merging step (merge followed by optimize) keeps every "
-             "member's objects valid. The emitted text is tied byte-for-byte to the model's emitter (X-emit); acceptance by the loaded "
-             "classes (pydantic parse_obj / structural validator over evaluated annotations) is judged by the oracle on every case.", "6 (C01)"),
+    "C01": C("Theorems (Props/C01.v): pipeline_sound — for EVERY list of well-formed samples, registry, sound replacement table, dict "
+             "decision, similarity oracle and fuel on which generate, process_root and merge_models succeed, every sample is admitted "
+             "by the final root model in the final graph, cyclic merged graphs included (induction on the size of the value); stage "
+             "theorems for detect, mk_union, merge_field_sets, optimize, generate, proc, ptr_eq_g, opt_model, merge_group, "
+             "merge_models; the liberal reading of Any is refuted at the two places where it fails. The model is tied by X-infer, "
+             "X-registry (graphs and replacement lists) and X-emit (bytes); acceptance by the loaded classes (pydantic parse_obj / "
+             "structural validator over evaluated annotations) is judged by the oracle on every case, including one targeted case "
+             "per registered replace pair: partial only in that last mile.", "6 (C01)"),
     "C05": C("Theorems (Props/C05.v): the group-closure loop yields exactly the connected components of the comparator's answers and "
              "terminates within its fuel; merged models have the union of their members' keys; untouched models keep index, name and "
              "keys; the replacement list matches; every reference stays registered (closed graph invariant through process_meta_data, "
@@ -37,8 +41,10 @@ CLAIMED = {
              "parse/render/parse round trips of float and date/time VALUES are oracle-only (CPython dtoa, dateutil): partial.", "6 (C09)"),
     "C10": C("Theorems (Props/C10.v): the overflow rule (<=15 literals, each < 20 chars) regenerated from complex.py equals the model's; "
              "DUnion keeps exactly one literal holding exactly the observed plain strings iff no str member, no overflowed literal and "
-             "the folded set does not overflow, otherwise str; render limit (len < max, 0 or attrs => never). Annotation bytes tied by "
-             "X-emit; evaluated annotations of the loaded module judged by the oracle over the boundary stream.", "6 (C10)"),
+             "the folded set does not overflow, otherwise str; render limit (len < max, 0 or attrs => never); the printed Literal "
+             "annotation reads back (parser of the annotation language) as EXACTLY the literal set, a hidden set as str. Annotation "
+             "bytes tied by X-emit; evaluated annotations of the loaded module judged by the oracle over the boundary stream "
+             "(set sizes 1..17 x lengths 19/20/21 x limits x repetition of the strings).", "6 (C10)"),
     "C03": C("Theorems (Props/C03.v): every Python keyword is blacklisted and the '_' suffix escapes the blacklist (tables regenerated "
              "from models/base.py and the interpreter); after generate_names every model has a name and names are pairwise distinct "
              "(premise: no empty explicit name, shown necessary), first holders / unique names / indices / fields unchanged, the code "
@@ -77,7 +83,9 @@ CLAIMED = {
     "C15": C("Theorems (Props/C15.v): for EVERY interleaving of Enter/Exit/Read events whose context objects are thread-owned, what a "
              "thread reads from the thread-local context slot is what it reads when run alone (C15_noninterference); a read in a "
              "thread that never entered is defined; nested renders restore. Byte-code atomicity, the GIL, Jinja's and re's caches are "
-             "not modelled: real threads under a minimal switch interval are compared with solo runs (X-thread). Partial by nature.",
+             "not modelled: real threads under a minimal switch interval are compared with solo runs (X-thread), and two pipelines "
+             "are run under FORCED schedules by a cooperative scheduler (X-sched: one thread stopped at its j-th constructor / "
+             "generate() entry while the other runs to its end) — deterministic, replayable. Partial by nature.",
              "6 (C15)"),
     "C16": C("Theorems (Props/C16.v): defaults regenerated from the argparse declarations equal the documented ones; list documents "
              "contribute their elements, objects themselves, dotted lookups unfold key by key; splitting documents over arguments or a "
